@@ -35,6 +35,8 @@ type Env struct {
 	User  UserSpec
 	List  []string
 	NHist int
+	// FlagKey is the value of the variable fk
+	FlagKey string
 }
 
 func genEnv(r *Run) *Env {
@@ -68,16 +70,29 @@ func genEnv(r *Run) *Env {
 		{Kind: "obj", Name: "user", Val: e.User},
 		{Kind: "strs", Name: "lst", Val: e.List},
 	}
+	// fk: the text of a key of user.Flags (or of no key), for user.Flags[fk] inside counter loops
+	fk := "nokey"
+	if len(e.User.Flags) > 0 && r.Rng.Intn(5) > 0 {
+		fk = e.User.Flags[r.Rng.Intn(len(e.User.Flags))].Key
+	}
+	e.FlagKey = fk
+	if r.Rng.Intn(2) == 0 {
+		e.Ops = append(e.Ops, SOp{Kind: "string", Name: "fk", Val: fk})
+	} else {
+		e.Ops = append(e.Ops, SOp{Kind: "static", Name: "fk", Val: fk})
+	}
 	r.Rng.Shuffle(len(e.Ops), func(i, j int) { e.Ops[i], e.Ops[j] = e.Ops[j], e.Ops[i] })
 	// earlier assignments of the same names through OTHER setters (every final value above overwrites one):
 	// a setter that leaves a stale representation behind shows as the old value
 	if r.Rng.Intn(3) == 0 {
 		var pre []SOp
-		for _, nm := range []string{"bs", "bv", "ss", "si", "sy", "cn"} {
+		for _, nm := range []string{"bs", "bv", "ss", "si", "sy", "cn", "su", "user", "lst", "fk"} {
 			if r.Rng.Intn(2) == 0 {
 				continue
 			}
-			switch r.Rng.Intn(4) {
+			switch r.Rng.Intn(5) {
+			case 4: // the name was a counter before
+				pre = append(pre, SOp{Kind: "counter", Name: nm, Val: 7})
 			case 0:
 				pre = append(pre, SOp{Kind: "static", Name: nm, Val: int64(15)})
 			case 1:
@@ -114,6 +129,9 @@ func genEnv(r *Run) *Env {
 		}
 	} else {
 		e.Paths = append(e.Paths, tpath{Path: "user.Finance.Balance", K: kMissing, Val: nil}, tpath{Path: "user.Finance.AllowBuy", K: kMissing, Val: nil})
+	}
+	for _, kv := range e.User.Flags {
+		e.Paths = append(e.Paths, tpath{Path: "user.Flags." + kv.Key, K: kInt, Val: int64(kv.Val), Bits: 32})
 	}
 	for i, s := range e.List {
 		e.Paths = append(e.Paths, tpath{Path: fmt.Sprintf("lst.%d", i), K: kStr, Val: s})
@@ -195,7 +213,21 @@ func (g *gen) mark() string {
 	return fmt.Sprintf("<%d>", g.nTag)
 }
 
-func (g *gen) paths() []tpath { return append(append([]tpath(nil), g.env.Paths...), g.extra...) }
+func (g *gen) paths() []tpath {
+	ps := append(append([]tpath(nil), g.env.Paths...), g.extra...)
+	if g.cfg.BuiltinOnly {
+		// the code-generated inspector hands out a map element as the address of a fresh copy (an allocation of the dependency)
+		k := 0
+		for _, p := range ps {
+			if !strings.Contains(p.Path, "Flags") {
+				ps[k] = p
+				k++
+			}
+		}
+		ps = ps[:k]
+	}
+	return ps
+}
 
 func (g *gen) anyPath() tpath { ps := g.paths(); return ps[g.r.Rng.Intn(len(ps))] }
 
@@ -277,7 +309,12 @@ func (g *gen) cond() Cond {
 				if n < 0 {
 					n = 0
 				}
-				return Cond{Hlp: "len", HlpArgs: []string{p.Path}, Op: pick(g.r, ops6), R: strconv.Itoa(n)}
+				hlp := "len"
+				if (p.Path == "bv" || p.Path == "bs") && g.r.Rng.Intn(2) == 0 {
+					// cap() of a bytes variable: the context's own copy, whose spare room is not data (it reads as the length)
+					hlp = "cap"
+				}
+				return Cond{Hlp: hlp, HlpArgs: []string{p.Path}, Op: pick(g.r, ops6), R: strconv.Itoa(n)}
 			}
 		case 3:
 			if g.cfg.Helpers && !g.cfg.BuiltinOnly {
@@ -595,6 +632,12 @@ func (g *gen) cloop(depth int) TNode {
 		g.extra = append(g.extra, tpath{Path: "user.Finance.History[" + v + "].Cost", K: kFloat, Val: g.env.User.History[0].Cost},
 			tpath{Path: "user.Finance.History[" + v + "].Comment", K: kBytes, Val: g.env.User.History[0].Comment})
 	}
+	for _, kv := range g.env.User.Flags {
+		if kv.Key == g.env.FlagKey {
+			// a map entry addressed through a variable holding the key's text (not a number)
+			g.extra = append(g.extra, tpath{Path: "user.Flags[fk]", K: kInt, Val: int64(kv.Val), Bits: 32})
+		}
+	}
 	if up && start >= 0 && len(g.env.List) > 0 && start+trips <= len(g.env.List) {
 		g.extra = append(g.extra, tpath{Path: "lst[" + v + "]", K: kStr, Val: g.env.List[0]})
 	}
@@ -693,7 +736,7 @@ func (g *gen) sw(depth int) TNode {
 	} else {
 		for i := 0; i < n; i++ {
 			cd := g.cond()
-			if cd.Not || cd.Hlp == "len" {
+			if cd.Not || cd.Hlp == "len" || cd.Hlp == "cap" {
 				cd = Cond{L: "si", Op: "==", R: "1"}
 			}
 			if cd.Hlp == "" && len(cd.Op) != 2 {
@@ -830,7 +873,7 @@ func genCase(r *Run, cfg GenCfg) (*RCase, []TNode) {
 func genCaseEnv(r *Run, cfg GenCfg, env *Env) (*RCase, []TNode) {
 	g := &gen{r: r, cfg: cfg, env: env}
 	body := g.block(0)
-	c := &RCase{}
+	c := &RCase{Entries: r.Rng.Intn(4) == 0}
 	for _, t := range g.incl {
 		c.Tpls = append(c.Tpls, t)
 	}
